@@ -92,6 +92,29 @@ def gen_sh_model_only(rng, tier):
             ops.append(sh_line(env, [t] * (n + 2), ["-"] * n + ["r%d.%d" % (rt, regs[0]), "r%d.%d" % (rt, regs[2])], ff, "-", cc))
             ops.append(sh_line(env, [43, 79, 42], ["r11.2", "r11.0", "r11.1"], ff, "-", cc))
             ops.append(sh_line(env, [79] * 10, ["-"] * 8 + ["r11.0", "s16"], ff, "-", cc))
+    # 2-cycles between GP arguments of different widths, both orders, 32/64-bit destination views (the exchange must be as wide as
+    # the wider value; the machine tracks how many bytes an xchg really exchanges)
+    for env, regs in (("x64l", [7, 6, 2, 1]), ("x64w", [1, 2, 8, 9])):
+        for ta, tb in ((38, 40), (40, 38), (39, 41), (41, 39), (34, 40), (40, 36), (38, 39), (36, 38), (38, 36)):
+            for rta in (5, 6):
+                for rtb in (5, 6):
+                    ops.append(sh_line(env, [ta, tb], ["r%d.%d" % (rta, regs[1]), "r%d.%d" % (rtb, regs[0])]))
+                    ops.append(sh_line(env, [ta, tb, 40], ["r%d.%d" % (rta, regs[1]), "r%d.%d" % (rtb, regs[0]), "r6.%d" % regs[3]]))
+    # stack-arguments base pointer (SA): dynamically aligned frame without frame pointer, stack arguments loaded into registers, and the
+    # SA register moving during the shuffle (requested SA register occupied by an incoming argument; an argument assigned to the
+    # register picked for SA; SA requested while arguments chain through it)
+    for env, cc, t, rt, nreg, pool in (("x64l", 0, 40, 6, 6, [7, 6, 2, 1, 8, 9, 0, 3, 10, 11]), ("a64l", 0, 40, 6, 8, [0, 1, 2, 3, 9, 10, 11, 12]),
+                                       ("x86l", 7, 38, 5, 3, [0, 2, 1, 3, 6, 7]), ("x64w", 0, 40, 6, 4, [1, 2, 8, 9, 0, 3, 10, 11])):
+        nst = 2
+        for ff in (0x2000, 0x4000, 0x2002):
+            for sa in ["-"] + [str(r) for r in pool[:4]]:
+                for first_dst in pool[:6]:
+                    dsts = ["r%d.%d" % (rt, first_dst)] + ["-"] * (nreg - 1)
+                    st_dsts = [r for r in pool[4:] + pool[:4] if r != first_dst and str(r) != sa][:nst]
+                    ops.append(sh_line(env, [t] * (nreg + nst), dsts + ["r%d.%d" % (rt, r) for r in st_dsts], ff, sa, cc))
+                # two register arguments exchanged + stack loads
+                dsts = ["r%d.%d" % (rt, pool[1]), "r%d.%d" % (rt, pool[0])] + ["-"] * (nreg - 2)
+                ops.append(sh_line(env, [t] * (nreg + nst), dsts + ["r%d.%d" % (rt, r) for r in pool[4:4 + nst]], ff, sa, cc))
     # destination register = source register with a different type (conversion in place)
     for env in ("x64l", "a64l"):
         for st, dt in ((42, 43), (42, 80), (43, 79), (42, 70), (59, 80), (69, 80), (79, 80), (79, 79), (42, 42), (43, 42)):
@@ -160,6 +183,27 @@ def scalar_of(t):
     return 0
 
 
+def tsize(t):
+    return {34: 1, 35: 1, 36: 2, 37: 2, 38: 4, 39: 4, 40: 8, 41: 8, 42: 4, 43: 8}.get(t, 0)
+
+
+def bad_args_widen(types, dsts, m):
+    """every destination the monitor rejects belongs to a variable whose destination type is wider than its source type (K3)"""
+    if "[" not in m:
+        return False
+    bad = [int(x) for x in m[m.index("[") + 1:m.index("]")].split(",") if x.strip()]
+    if not bad:
+        return False
+    for ai in bad:
+        if ai >= len(dsts) or not dsts[ai].startswith("r"):
+            return False
+        f = dsts[ai].split(".")
+        dsz = tsize(int(f[2])) if len(f) == 3 else {5: 4, 6: 8}.get(int(f[0][1:]), 0)
+        if not (tsize(types[ai]) and dsz > tsize(types[ai])):
+            return False
+    return True
+
+
 def sh_key(op, m, ans=""):
     """stable key of the failing class; the three known classes are recognised by what the real code emitted"""
     w = op.split()
@@ -169,15 +213,19 @@ def sh_key(op, m, ans=""):
     dsts = w[8 + n:]
     insts = [i.strip() for i in ans.split("|")[-1].split(";") if i.strip()]
     small = any(t in (34, 35, 36, 37, 38, 39) for t in types)
-    groups = {d.split(".")[0] for d in dsts if d.startswith("r")}
+    def grp(rt):
+        return 0 if 2 <= rt <= 6 else 1 if 7 <= rt <= 15 else 2 if rt == 16 else 3 if rt == 28 else 15
+    groups = {grp(int(d.split(".")[0][1:])) for d in dsts if d.startswith("r")}
     has_xchg = any(i.startswith("xchg") for i in insts)
     if "dest-of-arg" in m:
         if env.startswith("a64") and small:
             return "shuffle:a64-no-extension"
         if has_xchg and len(groups) > 1:
             return "shuffle:cross-group-swap"
-        if has_xchg and small:
+        if has_xchg and small and bad_args_widen(types, dsts, m):
             return "shuffle:swap-without-extension"
+        if has_xchg:
+            return "shuffle:swap-corrupts-value:" + env
         # a vector register argument whose destination is the same register with another scalar type: no instruction writes it
         bad_args = [int(x) for x in m[m.index("[") + 1:m.index("]")].split(",") if x.strip()] if "[" in m else []
         written = {i.split()[1] for i in insts if len(i.split()) > 1}
@@ -206,15 +254,21 @@ def run_shuffle(res, h, rng):
     impl, rc, err = vlib.run_lines([str(h)], ops)
     crashed = []
     if rc != 0 or len(impl) != len(ops):
-        # isolate crashing lines (sanitizer reports end the process): run one by one
+        # isolate crashing / hanging lines (a sanitizer report or the alarm ends the process): chunks of 64 first, then line by line
         impl = []
-        for o in ops:
-            r, rc1, e1 = vlib.run_lines([str(h)], [o])
-            if rc1 != 0 or len(r) != 1:
-                crashed.append((o, e1))
-                impl.append("crash")
-            else:
-                impl.append(r[0])
+        for c0 in range(0, len(ops), 64):
+            chunk = ops[c0:c0 + 64]
+            r, rc1, e1 = vlib.run_lines([str(h)], chunk)
+            if rc1 == 0 and len(r) == len(chunk):
+                impl += r
+                continue
+            for o in chunk:
+                r, rc1, e1 = vlib.run_lines([str(h)], [o])
+                if rc1 != 0 or len(r) != 1:
+                    crashed.append((o, e1))
+                    impl.append("crash")
+                else:
+                    impl.append(r[0])
     mon_ops, idx = [], []
     for i, (o, r) in enumerate(zip(ops, impl)):
         if r != "crash" and not r.startswith("bad-op"):
@@ -274,10 +328,24 @@ def run_shuffle(res, h, rng):
     res.coverage["sh_nontrivial"] = len({o for o, r in zip(ops, impl) if r.startswith("ok") and r.split("|")[-1].strip()})
     res.coverage["sh_judged_by_machine_monitor"] = sum(1 for m in mon if m == "good" or m.startswith("BAD"))
     res.add_samples([{"op": ops[i], "impl": impl[i]} for i in (len(ops) // 2, len(ops) - 1)], limit=6)
-    if crashed:
-        o, e1 = min(crashed, key=lambda c: len(c[0]))
+    hangs = [c for c in crashed if "TIMEOUT" in c[1]]
+    crashes = [c for c in crashed if "TIMEOUT" not in c[1]]
+    res.coverage["sh_hangs"] = len(hangs)
+    hk = {}
+    for o, e1 in hangs:
+        w = o.split()
+        nn = int(w[5])
+        noswap = w[1].startswith("a64")
+        key = "shuffle:hang:no-swap-destination-held-by-sa" if noswap and (int(w[6 + nn], 16) >> 8 or w[7 + nn] != "-") else "shuffle:hang:" + w[1]
+        hk.setdefault(key, []).append((o, e1))
+    for key, lst in sorted(hk.items()):
+        o, e1 = min(lst, key=lambda c: len(c[0]))
+        res.violation("emit_args_assignment does not return (harness alarm after 5 s) on %r (%s, %d inputs)" % (o, key, len(lst)),
+                      {"ops": [o], "stderr": e1[-500:]}, True, key=key)
+    if crashes:
+        o, e1 = min(crashes, key=lambda c: len(c[0]))
         key = "crash:vec-signature-ctz" if "ctz" in e1 else "crash:sh"
-        res.violation("emit_args_assignment: sanitizer report / crash on %r (%d inputs): %s" % (o, len(crashed), e1.strip().splitlines()[0][:300] if e1.strip() else "?"),
+        res.violation("emit_args_assignment: sanitizer report / crash on %r (%d inputs): %s" % (o, len(crashes), e1.strip().splitlines()[0][:300] if e1.strip() else "?"),
                       {"ops": [o], "stderr": e1[-2000:]}, True, key=key)
     for key, lst in sorted(bad.items()):
         i, m = min(lst, key=lambda x: len(ops[x[0]]))
